@@ -162,10 +162,11 @@ pub fn run_case(c: &Value) -> Value {
 pub fn record(args: &[String]) {
     let out = arg_value(args, "--out").expect("--out");
     let n: u64 = arg_value(args, "--n").and_then(|x| x.parse().ok()).unwrap_or(1000);
+    let c16 = arg_value(args, "--mode").as_deref() == Some("c16");
     let mut rng = Rng::new(seed_from_env());
     let mut w = NdjsonOut::create(&out);
     for i in 0..n {
-        let expr = random_expr(&mut rng);
+        let expr = if c16 { random_expr_c16(&mut rng, true) } else if rng.chance(1, 2) { random_expr_c16(&mut rng, false) } else { random_expr(&mut rng) };
         let dn = rng.range_i64(719_162, 876_000); // 1970 .. ~2399
         let sod = if rng.chance(1, 3) { *rng.pick(&[0i64, 59, 60, 86_399, 86_340, 3599]) } else { rng.range_i64(0, 86_399) };
         let calls = 2 + rng.below(4);
@@ -190,6 +191,10 @@ pub fn record(args: &[String]) {
             Ok(s) => s,
             Err(_) => continue,
         };
+        if c16 && !surely_satisfiable(&expr) {
+            // accept/reject is judged; the iterator is not driven into a schedule that may never fire
+            continue;
+        }
         let mut clock = dn * 86_400 + sod;
         for a in advances {
             seq += 1;
@@ -251,4 +256,61 @@ fn random_expr(rng: &mut Rng) -> String {
     let dom = rand_field(rng, 1, dom_max, None, 5);
     let dow = rand_field(rng, 0, 6, Some(&DAYS), 5);
     format!("{} {} {} {} {}", minute, hour, dom, month, dow)
+}
+
+/// C16 channel B: the documented grammar in its full width (lists containing `*`, weekday 7, names in
+/// ranges, steps) and, for 2 in 5 expressions, one or two random character edits.
+fn random_expr_c16(rng: &mut Rng, mutate: bool) -> String {
+    const MONTHS: [&str; 12] = ["jan", "Feb", "MAR", "apr", "May", "JUN", "jul", "Aug", "SEP", "oct", "Nov", "DEC"];
+    const DAYS: [&str; 8] = ["sun", "Mon", "TUE", "wed", "Thu", "FRI", "sat", "7"];
+    let minute = rand_field(rng, 0, 59, None, 2);
+    let hour = rand_field(rng, 0, 23, None, 3);
+    let month = rand_field(rng, 1, 12, Some(&MONTHS), 4);
+    let dom_max = if month == "*" { 31 } else { 28 };
+    let dom = rand_field(rng, 1, dom_max, None, 4);
+    // weekday: 0..=7 where 7 is Sunday again
+    let dow = if rng.chance(1, 2) { rand_field(rng, 0, 7, Some(&DAYS), 2) } else { rand_field(rng, 0, 6, Some(&DAYS[..7]), 2) };
+    let sep = |rng: &mut Rng| match rng.below(12) {
+        0 => "  ",
+        1 => "\t",
+        _ => " ",
+    };
+    let mut e = String::new();
+    for (k, f) in [minute, hour, dom, month, dow].iter().enumerate() {
+        if k > 0 {
+            e.push_str(sep(rng));
+        }
+        e.push_str(f);
+    }
+    if mutate && rng.chance(2, 5) {
+        const ALPHA: [char; 24] = ['0', '1', '2', '3', '5', '6', '7', '8', '9', '*', '/', ',', '-', ' ', '+', 'a', 'n', 'u', 's', 'J', 'x', '?', 'L', '#'];
+        let edits = 1 + rng.below(2);
+        for _ in 0..edits {
+            let mut cs: Vec<char> = e.chars().collect();
+            let pos = rng.below(cs.len() as u64 + 1) as usize;
+            match rng.below(3) {
+                0 if pos < cs.len() => {
+                    cs.remove(pos);
+                }
+                1 if pos < cs.len() => cs[pos] = *rng.pick(&ALPHA),
+                _ => cs.insert(pos, *rng.pick(&ALPHA)),
+            }
+            e = cs.into_iter().collect();
+        }
+    }
+    e
+}
+
+/// Conservative: some day of month that every month has is in the day field, or every month is allowed.
+fn surely_satisfiable(expr: &str) -> bool {
+    let f: Vec<&str> = expr.split_whitespace().collect();
+    if f.len() != 5 {
+        return false;
+    }
+    if f[3] == "*" || f[2].contains('*') {
+        return true;
+    }
+    f[2].split(|c: char| !c.is_ascii_digit())
+        .filter_map(|t| t.parse::<u32>().ok())
+        .any(|v| (1..=28).contains(&v))
 }
